@@ -132,7 +132,6 @@ let quirk_keys = [
   "int-accepts-non-int32", (fun q -> { q with q_int_any_number = false });
   "id-accepts-non-integer-number", (fun q -> { q with q_id_any_number = false });
   "upload-exempt-from-non-null", (fun q -> { q with q_upload_exempt = false });
-  "remap-name-collision-upload", (fun q -> { q with q_remap_collision = false });
 ]
 
 (* C06_QUIRKS_OFF=key,key : the quirk setting the implementation under test is expected to have (used to
@@ -260,10 +259,7 @@ let handle (x : sexp) : (string * string) list =
           | None -> add "specfail" ("error_names_offender cause=unexplained unreadable path " ^ quote_string p)
           | Some steps ->
             if not (offending std sch vds' nj (b v) steps) then begin
-              (* the one known way to get a mis-named position: the lookup under a colliding mapper name *)
-              let alt = pipeline { base_quirks with q_remap_collision = false } sch reparse vds j in
-              let cause = if alt <> m_pipe then "remap-name-collision-upload" else "unexplained" in
-              add "specfail" (Printf.sprintf "error_names_offender cause=%s %s at %s is not an offending position" cause v (quote_string p))
+              add "specfail" (Printf.sprintf "error_names_offender cause=unexplained %s at %s is not an offending position" v (quote_string p))
             end);
          let known n = known_name sch vds (b n) in
          let bad = ref [] in
